@@ -21,7 +21,10 @@ CONFIG = dict(
              "assumption that a `connected` event never re-uses the id of a held connection. Tie: the real Connections methods "
              "(exported under the verif tag) are run on generated and exhaustively enumerated event sequences; after every event all "
              "five maps are dumped and compared with the model's; on a difference the invariant's finite checks (proved to follow "
-             "from the invariant) are evaluated on the implementation's own state to decide fail/hold.",
+             "from the invariant) are evaluated on the implementation's own state to decide fail/hold. Half of the generated histories "
+             "reach the same transitions the way the daemon does — Daemon.handleEvent(ConnectEvent / DisconnectEvent / "
+             "ConnectFailureEvent) and connectionIntroduced on a Daemon reduced to its connections table, a bare pex and an offline "
+             "pool — so that the event handlers' own bookkeeping is compared too.",
         note="Address split/join (iputil.SplitAddr, fmt.Sprintf) are parameters of the theorems (only assumption: \"\" does not "
              "split); the driver's concrete splitAddr is validated by the correspondence run incl. IPv6, leading-zero ports and "
              "malformed addresses. Locking (sync.Mutex) and time stamps are not modelled. The model is hand-written (tie H).",
